@@ -726,6 +726,41 @@ func gen(tier string, seed uint64) []runner.Scenario {
 			}
 		}
 	}
+	// directed observer programs: while a Set sits at each internal step, one observer reads the error
+	// first and the flag / value / channel afterwards: what Err showed must not be taken back
+	for _, pt := range signalPoints {
+		for k, second := range []opKind{opIsSet, opGet, opPoll, opErr} {
+			for nobs := 1; nobs <= 2; nobs++ {
+				procs := [][]in{{{Kind: opSet, Val: 1}}}
+				for o := 0; o < nobs; o++ {
+					procs = append(procs, []in{{Kind: opErr}, {Kind: second}, {Kind: opErr}})
+				}
+				pt, procs := pt, procs
+				id := fmt.Sprintf("signal-observer/%s/%d/n%d", pt, k, nobs)
+				s := r.Next()
+				out = append(out, runner.Scenario{ID: id, Run: func() runner.Result { return signalScenario(id, s, pt, 1, procs) }})
+			}
+		}
+	}
+	// directed sequential histories of the lazy channel: a buffered channel that holds a token when it is closed
+	for _, pt := range chanPoints {
+		for k, prog := range [][]chanOp{
+			{cMake1, cSend, cClose, cGet, cRecv, cRecv},
+			{cMake1, cSend, cGet, cClose, cRecv, cRecv},
+			{cMake1, cGet, cSend, cClose, cGetWait},
+			{cGet, cClose, cRecv, cGetWait},
+		} {
+			for _, extra := range [][]chanOp{nil} { // no concurrent Get: it would decide the capacity before Make(1) does
+				procs := [][]chanOp{prog}
+				if extra != nil {
+					procs = append(procs, extra)
+				}
+				pt, procs := pt, procs
+				id := fmt.Sprintf("chan-sequential/%s/%d/%d", pt, k, len(procs))
+				out = append(out, runner.Scenario{ID: id, Run: func() runner.Result { return chanScenario(id, pt, 1, procs) }})
+			}
+		}
+	}
 	cops := []chanOp{cGet, cGetWait, cClose, cFull, cMake1}
 	for _, pt := range chanPoints {
 		for rep := 0; rep < reps*2; rep++ {
